@@ -36,16 +36,18 @@ static struct {
 	int  ipc;
 	int  closed_seen;
 	int  hs_read; // bytes of the socket's own handshake consumed
+	int  udp;     // SP/UDP: a connected datagram socket; 'closed' means a DISC datagram was received
 } cn[MAXC];
 static nng_socket sut;
 static nng_listener sfd_l;
 static int        sut_open, is_push;
 static size_t     scale = 1;
 static char       tcp_url[64], ipc_url[128], ipc_path[100];
-static uint16_t   tcp_port;
+static uint16_t   tcp_port, udp_port;
 static long       walk = -1;
 static int        lenient, skip_walk; // failure-injection mode; the socket could not even be opened
 static int        step;
+static int        quiet_cmd; // the command came with a leading '!': part of the set-up, no result line
 static char       ob[8192];
 static size_t     on;
 
@@ -76,8 +78,10 @@ obs_emit(void)
 		}
 	}
 	o("]}}");
-	printf("R %ld %d %s\n", walk, step++, ob);
-	fflush(stdout);
+	if (!quiet_cmd) {
+		printf("R %ld %d %s\n", walk, step++, ob);
+		fflush(stdout);
+	}
 	on    = 0;
 	ob[0] = 0;
 }
@@ -210,7 +214,9 @@ main(int argc, char **argv)
 	}
 	while (fgets(line, sizeof(line), in) != NULL) {
 		char cmd[32] = "", a1[32] = "", a2[32] = "", a3[32] = "", a4[32] = "", a5[32] = "", a6[32] = "";
-		int  n = sscanf(line, "%31s %31s %31s %31s %31s %31s %31s", cmd, a1, a2, a3, a4, a5, a6);
+		int  n;
+		quiet_cmd = line[0] == '!';
+		n = sscanf(line + quiet_cmd, "%31s %31s %31s %31s %31s %31s %31s", cmd, a1, a2, a3, a4, a5, a6);
 		if (n < 1) {
 			continue;
 		}
@@ -303,6 +309,19 @@ main(int argc, char **argv)
 				fprintf(stderr, "driver: ipc listen: %s\n", nng_strerror(rv));
 				return 3;
 			}
+			{
+				int up = 0;
+				if ((rv = nng_listener_create(&l, sut, "udp://127.0.0.1:0")) != 0 || (rv = nng_listener_start(l, 0)) != 0 ||
+				    (rv = nng_listener_get_int(l, NNG_OPT_BOUND_PORT, &up)) != 0) {
+					if (lenient) {
+						skip_walk = 1;
+						continue;
+					}
+					fprintf(stderr, "driver: udp listen: %s\n", nng_strerror(rv));
+					return 3;
+				}
+				udp_port = (uint16_t) up;
+			}
 			if ((rv = nng_listener_create(&sfd_l, sut, "socket://")) != 0 || (rv = nng_listener_start(sfd_l, 0)) != 0) {
 				if (lenient) {
 					skip_walk = 1;
@@ -318,7 +337,16 @@ main(int argc, char **argv)
 		if (!strcmp(cmd, "conn")) {
 			int c = atoi(a1), fd, rv, one = 1;
 			cn[c].ipc = !strcmp(a2, "ipc");
-			if (!strcmp(a2, "sfd")) {
+			cn[c].udp = !strcmp(a2, "udp");
+			if (cn[c].udp) {
+				struct sockaddr_in si;
+				memset(&si, 0, sizeof(si));
+				si.sin_family      = AF_INET;
+				si.sin_port        = htons(udp_port);
+				si.sin_addr.s_addr = htonl(INADDR_LOOPBACK);
+				fd                 = socket(AF_INET, SOCK_DGRAM, 0);
+				rv                 = connect(fd, (struct sockaddr *) &si, sizeof(si));
+			} else if (!strcmp(a2, "sfd")) {
 				// socket:// transport: one end of a socketpair is handed to the listener, the driver keeps the other
 				int fds[2];
 				rv = socketpair(AF_UNIX, SOCK_STREAM, 0, fds);
@@ -356,6 +384,102 @@ main(int argc, char **argv)
 			int       then_close = 0;
 			uint16_t  peer = is_push ? 0x51 : 0x50; // what the driver claims to be: PULL for a PUSH socket, PUSH for a PULL socket
 			uint64_t  end;
+			if (cn[c].udp) {
+				// SP/UDP datagram: ver(1) op(1) type(2, LE) p0(2, LE) p1(2, LE) [payload]
+				uint8_t  d[8] = { 1, 0, (uint8_t) peer, (uint8_t) (peer >> 8), 0, 0, 0, 0 };
+				size_t   dl   = 8, paylen = 0;
+				uint16_t p0 = 0, p1 = 0;
+				int      nrep = 0, exprep = atoi(a6);
+				uint64_t end2;
+				if (!strcmp(a2, "creq_ok") || !strcmp(a2, "creq_ref0") || !strcmp(a2, "creq_badtype")) {
+					d[1] = 1;
+					p0   = 65000;
+					p1   = !strcmp(a2, "creq_ref0") ? 0 : 5;
+					if (!strcmp(a2, "creq_badtype")) {
+						d[2] = 0x10; // PAIR
+						d[3] = 0;
+					}
+				} else if (!strcmp(a2, "data") || !strcmp(a2, "data_trunc")) {
+					d[1]   = 0;
+					paylen = len;
+					p0     = (uint16_t) (len + (!strcmp(a2, "data_trunc") ? 1 : 0));
+				} else if (!strcmp(a2, "badver")) {
+					d[0] = 2;
+					d[1] = 1;
+					p1   = 5;
+				} else if (!strcmp(a2, "short")) {
+					dl = 4;
+				} else if (!strcmp(a2, "badop")) {
+					d[1] = 9;
+				} else if (!strcmp(a2, "disc")) {
+					d[1] = 3;
+				} else {
+					fprintf(stderr, "driver: bad udp item %s\n", a2);
+					return 3;
+				}
+				d[4] = (uint8_t) p0;
+				d[5] = (uint8_t) (p0 >> 8);
+				d[6] = (uint8_t) p1;
+				d[7] = (uint8_t) (p1 >> 8);
+				memcpy(buf, d, dl);
+				for (size_t i = 0; i < paylen; i++) {
+					buf[dl + i] = (uint8_t) (seed + 7 * i);
+				}
+				send(cn[c].fd, buf, dl + paylen, MSG_NOSIGNAL);
+				free(buf);
+				o("\"out\":{\"got\":[");
+				end = now_ms() + 8000;
+				for (;;) {
+					nng_msg *m = NULL;
+					nng_socket_set_ms(sut, NNG_OPT_RECVTIMEO, got < expn ? (nng_duration) (end > now_ms() ? end - now_ms() : 1) : 25);
+					if (nng_recvmsg(sut, &m, 0) != 0) {
+						break;
+					}
+					{
+						size_t   l  = nng_msg_len(m);
+						uint8_t *b  = nng_msg_body(m);
+						int      ok = scale > 0 && l % scale == 0 && nng_msg_header_len(m) == 0;
+						for (size_t i = 1; ok && i < l; i++) {
+							ok = b[i] == (uint8_t) (b[0] + 7 * i);
+						}
+						o("%s%ld", first ? "" : ",", ok ? (long) (l / scale) : -1L);
+						first = 0;
+						got++;
+					}
+					nng_msg_free(m);
+				}
+				// datagrams the socket sent back: [opcode, first parameter]; they must be well-formed (8 bytes, version 1, our
+				// peer's protocol id)
+				o("],\"replies\":[");
+				first = 1;
+				end2  = now_ms() + 8000;
+				for (;;) {
+					struct pollfd pf = { cn[c].fd, POLLIN, 0 };
+					uint8_t       r[64];
+					ssize_t       k;
+					int           w = nrep < exprep ? (int) (end2 > now_ms() ? end2 - now_ms() : 0) : 25;
+					if (poll(&pf, 1, lenient ? 25 : w) <= 0) {
+						break;
+					}
+					k = recv(cn[c].fd, r, sizeof(r), MSG_DONTWAIT);
+					if (k < 0) {
+						break; // (ICMP errors surface here: the listener is gone)
+					}
+					if (k != 8 || r[0] != 1) {
+						o("%s[-1,%ld]", first ? "" : ",", (long) k);
+					} else {
+						o("%s[%d,%d]", first ? "" : ",", r[1], r[4] | (r[5] << 8));
+						if (r[1] == 3) {
+							cn[c].closed_seen = 1;
+						}
+					}
+					first = 0;
+					nrep++;
+				}
+				o("],\"closed\":%s}", cn[c].closed_seen ? "true" : "false");
+				obs_emit();
+				continue;
+			}
 			if (!strcmp(a2, "hs_ok") || !strcmp(a2, "hs_bad_magic") || !strcmp(a2, "hs_bad_proto") || !strcmp(a2, "hs_short_close")) {
 				uint8_t h[8] = { 0, 'S', 'P', 0, (uint8_t) (peer >> 8), (uint8_t) peer, 0, 0 };
 				if (!strcmp(a2, "hs_bad_magic")) {
